@@ -2,6 +2,7 @@ package props
 
 import (
 	"os"
+	"strconv"
 	"sync"
 	"time"
 
@@ -30,7 +31,7 @@ func init() {
 			{Name: "fatal", N: func(vf.Tier) int { return 50 }, RlimitAS: 4 << 30, Run: func(c *vf.Ctx, i int) {
 				c.Evals(1)
 				if i == 21 {
-					b := make([]byte, 16<<30)
+					b := make([]byte, c00huge())
 					b[len(b)-1] = 1
 				}
 			}},
@@ -59,4 +60,15 @@ func init() {
 			}},
 		},
 	})
+}
+
+// c00huge is 16 GiB where an int can hold it (the allocation must exceed the
+// child's address-space limit), 1.5 GiB on 32-bit builds.
+func c00huge() int {
+	n := 3 << 29
+	if strconv.IntSize == 64 {
+		n <<= 3 + 0*strconv.IntSize // 12 GiB; the shift is not a constant expression
+		n += n / 3
+	}
+	return n
 }
